@@ -187,6 +187,9 @@ func init() {
 	pair := func(tr *Trace, variant ExecVariant, agg *Stats) (*Violation, []commitPoint) {
 		base, _, v := execForDigest(tr, ExecVariant{FailEncode: variant.FailEncode}, NewStats())
 		if v != nil {
+			if v.Class == "commit.order" {
+				return v, base // the write-order monitor is a verdict of this property in any execution
+			}
 			return &Violation{Class: "base." + v.Class, Step: v.Step, Msg: v.Msg}, base
 		}
 		other, _, v := execForDigest(tr, variant, agg)
@@ -202,6 +205,9 @@ func init() {
 		r := NewRng(seed)
 		cfg := baseConfig(r.Sub("config"), "determinism", tier)
 		cfg.MaxSteps = r.Sub("len").Range(20, 140)
+		if r.Sub("hip").Chance(0.25) {
+			cfg.HipShift = uint(r.Sub("hip").Range(1, 3)) // deeper digest levels of the pooled default digester come into play
+		}
 		tr := &Trace{Property: ps.ID, Seed: seed, Config: cfg}
 		run := NewStats()
 		w := NewWorld(cfg, run)
